@@ -23,6 +23,7 @@ def _alarm(signum, frame):
 
 
 PLUGIN_CALLERS = ("run_directive", "render_myst_role")
+LIBRARY_CALLERS = ("parse", "nested_render_text")
 LIB_MARKERS = ["/myst_parser/", "/docutils/", "/sphinx/", "/markdown_it/", "/mdit_py_plugins/", "/jinja2/", "/yaml/", "/pygments/"]
 
 
@@ -38,18 +39,35 @@ def signature_of(exc: BaseException) -> tuple[str, list[str]]:
                 short.append(f"{m.strip('/')}/{fn.split(m, 1)[1]}:{name}:{ln}")
                 break
     cls = type(exc).__name__
-    for fn, name, ln in reversed(frames):
+    if isinstance(exc, RecursionError):
+        # the innermost frame of a RecursionError is accidental: identify the cycle by the myst_parser
+        # functions that repeat on the stack
+        cnt = {}
+        for fn, name, ln in frames:
+            if "/myst_parser/" in fn:
+                k = fn.split("/myst_parser/", 1)[1] + ":" + name
+                cnt[k] = cnt.get(k, 0) + 1
+        cyc = sorted(k for k, v in cnt.items() if v >= 8)
+        if cyc:
+            return f"exception:{cls}:cycle=" + "+".join(cyc), short
+    for pos in range(len(frames) - 1, -1, -1):
+        fn, name, ln = frames[pos]
         if "/myst_parser/" in fn:
             sig = f"exception:{cls}:{fn.split('/myst_parser/', 1)[1]}:{name}"
-            if name in PLUGIN_CALLERS and frames and "/myst_parser/" not in frames[-1][0]:
-                # third-party directive / role code: identify the plugin frame as well
-                ifn, iname, _ = frames[-1]
+            if name in PLUGIN_CALLERS + LIBRARY_CALLERS and pos < len(frames) - 1 and cls != "CaseTimeout":
+                # third-party directive / role code: identify the plugin's own frame as well;
+                # markdown-it / plugin code under Parser.parse: the innermost library frame
+                below = [f for f in frames[pos + 1:] if not f[0].endswith("/docutils/nodes.py")] or frames[pos + 1:]
+                runs = [f for f in below if f[1] in ("run", "__call__")] if name in PLUGIN_CALLERS else []
+                ifn, iname, _ = runs[-1] if runs else (below[0] if name in PLUGIN_CALLERS else below[-1])
                 for m in LIB_MARKERS[1:]:
                     if m in ifn:
                         sig += f"<-{m.strip('/')}/{ifn.split(m, 1)[1]}:{iname}"
                         break
             return sig, short
     for fn, name, ln in reversed(frames):
+        if fn.endswith("/docutils/nodes.py"):
+            continue  # generic node container code: identify the caller instead
         for m in LIB_MARKERS[1:]:
             if m in fn:
                 return f"exception:{cls}:{m.strip('/')}/{fn.split(m, 1)[1]}:{name}", short
